@@ -362,3 +362,56 @@ func VerifHarness_C05_NLPLimits() {
 	verifReach("searched")
 	verifReach("done")
 }
+
+// an empty answer is an answer like any other: after the database is replaced (or the cache is
+// invalidated, switched off and on, swept after expiry) a query that matched nothing before is
+// answered from the database as it is now — and the other way round
+func VerifHarness_C05_EmptyThenReplace() {
+	with := []Command{{Command: "qqzz run", Description: "does qqzz things"}, {Command: "other", Description: "qqzz too"}}
+	for k := range with {
+		vFill(&with[k])
+	}
+	without := c01DB(3).Commands
+	first, second := without, with
+	if verifBool("matchFirst") {
+		first, second = with, without
+	}
+	db := &Database{Commands: first}
+	db.BuildUniversalIndex()
+	mdb := NewMonitoredDatabase(db)
+	q := []string{"qqzz", "QQZZ ", "qqzz things"}[verifIntRange("query", 0, 2)]
+	o := SearchOptions{Limit: 3, AllPlatforms: true, UseNLP: verifBool("nlp"), UseFuzzy: verifBool("fuzzy")}
+	search := func(tag string) {
+		var got []SearchResult
+		switch verifIntRange("entry", 0, 1) {
+		case 0:
+			got = mdb.SearchWithOptionsAndMonitoring(q, o)
+		case 1:
+			got = mdb.SearchWithOptionsAndCache(q, o)
+		}
+		c05Compare(mdb.Database, got, q, o, tag)
+	}
+	search("before")
+	search("repeated")
+	switch verifIntRange("change", 0, 4) {
+	case 0:
+		_ = mdb.LoadDatabaseWithMonitoring(second)
+	case 1:
+		mdb.UpdateDatabase(second)
+	case 2:
+		mdb.EnableCache(false)
+		mdb.UpdateDatabase(second)
+		mdb.EnableCache(true)
+	case 3:
+		mdb.Database.Commands = second
+		mdb.Database.BuildUniversalIndex()
+		mdb.InvalidateCache()
+	case 4:
+		mdb.UpdateDatabase(second)
+		verifAdvance("dt")
+		mdb.CleanupExpiredCache()
+	}
+	search("after the database changed")
+	verifReach("searched")
+	verifReach("done")
+}
